@@ -130,6 +130,10 @@ const (
 	svClosureTask   // the parameter of a roster predicate
 	svClosureTaskId // its task id
 	svStatusWord    // the identifier ACTIVE / INACTIVE / ...
+	svExecIdObj     // the ExecutorID of the status (nil if the status carries none)
+	svExecIdStr     // its value ("" if none)
+	svAgentIdObj    // the AgentID of the status
+	svAgentIdStr
 )
 
 type sval struct {
@@ -161,10 +165,11 @@ type symPkg struct {
 	fset   *token.FileSet
 	funcs  map[string][]*ast.FuncDecl
 	consts map[string]ast.Expr
+	vars   map[string]ast.Expr // package-level variables with an initialiser (lookup tables)
 }
 
 func loadSymPkg(relDir string) *symPkg {
-	p := &symPkg{fset: token.NewFileSet(), funcs: map[string][]*ast.FuncDecl{}, consts: map[string]ast.Expr{}}
+	p := &symPkg{fset: token.NewFileSet(), funcs: map[string][]*ast.FuncDecl{}, consts: map[string]ast.Expr{}, vars: map[string]ast.Expr{}}
 	ents, err := os.ReadDir(filepath.Join(repo, relDir))
 	if err != nil {
 		die("cannot read %s: %v", relDir, err)
@@ -196,6 +201,8 @@ func loadSymPkg(relDir string) *symPkg {
 					for i, id := range vs.Names {
 						if v.Tok == token.CONST {
 							p.consts[id.Name] = vs.Values[i]
+						} else {
+							p.vars[id.Name] = vs.Values[i]
 						}
 					}
 				}
@@ -259,6 +266,10 @@ type symWalk struct {
 	onAssign func(w *symWalk, a *ast.AssignStmt, env *senv) string
 	depth    int
 	maxDepth int
+	// inlineAll: follow every call into the package (default: only calls handed something of the status)
+	inlineAll bool
+	stack     []string          // functions being read, outermost first
+	where     map[string]string // marker -> outermost function of the package it was found through
 }
 
 func (w *symWalk) src(n ast.Node) string {
@@ -268,6 +279,12 @@ func (w *symWalk) src(n ast.Node) string {
 }
 
 func (w *symWalk) mark(name string, pc *form) {
+	if w.where == nil {
+		w.where = map[string]string{}
+	}
+	if len(w.stack) > 0 {
+		w.where[name] = w.stack[0]
+	}
 	if old, ok := w.markers[name]; ok {
 		w.markers[name] = fOr(old, pc)
 	} else {
@@ -342,10 +359,22 @@ func (w *symWalk) val(e ast.Expr, env *senv) sval {
 				return sval{kind: svState}
 			case "Reason":
 				return sval{kind: svReason}
+			case "ExecutorID":
+				return sval{kind: svExecIdObj}
+			case "AgentID":
+				return sval{kind: svAgentIdObj}
 			}
 		case svTaskIdObj:
 			if v.Sel.Name == "Value" {
 				return sval{kind: svTaskId}
+			}
+		case svExecIdObj:
+			if v.Sel.Name == "Value" {
+				return sval{kind: svExecIdStr}
+			}
+		case svAgentIdObj:
+			if v.Sel.Name == "Value" {
+				return sval{kind: svAgentIdStr}
 			}
 		case svClosureTask:
 			if v.Sel.Name == "taskId" {
@@ -417,10 +446,22 @@ func (w *symWalk) val(e ast.Expr, env *senv) sval {
 				return sval{kind: svState}
 			case "GetReason":
 				return sval{kind: svReason}
+			case "GetExecutorID":
+				return sval{kind: svExecIdObj}
+			case "GetAgentID":
+				return sval{kind: svAgentIdObj}
 			}
 		case svTaskIdObj:
 			if sel.Sel.Name == "GetValue" {
 				return sval{kind: svTaskId}
+			}
+		case svExecIdObj:
+			if sel.Sel.Name == "GetValue" {
+				return sval{kind: svExecIdStr}
+			}
+		case svAgentIdObj:
+			if sel.Sel.Name == "GetValue" {
+				return sval{kind: svAgentIdStr}
 			}
 		case svReason:
 			if sel.Sel.Name == "String" {
@@ -452,6 +493,10 @@ func (w *symWalk) compare(l, r sval, whole ast.Expr) *form {
 		return fNot(fAtom("I"))
 	case l.kind == svTaskId && r.kind == svClosureTaskId:
 		return fAtom("closure-id-match")
+	case l.kind == svNil && r.kind == svExecIdObj, l.kind == svStr && l.name == "" && r.kind == svExecIdStr:
+		return fNot(fAtom("HasExec"))
+	case l.kind == svNil && r.kind == svAgentIdObj, l.kind == svStr && l.name == "" && r.kind == svAgentIdStr:
+		return fNot(fAtom("HasAgent"))
 	}
 	return w.unknownAtom(whole)
 }
@@ -488,7 +533,14 @@ func (w *symWalk) boolean(e ast.Expr, env *senv) *form {
 		if c, ok := w.pkg.consts[v.Name]; ok {
 			return w.boolean(c, nil)
 		}
+	case *ast.IndexExpr:
+		return w.member(v, false, env)
 	case *ast.CallExpr:
+		if id, ok := v.Fun.(*ast.Ident); ok && id.Name == "__commaok" && len(v.Args) == 1 {
+			if ix, ok := v.Args[0].(*ast.IndexExpr); ok {
+				return w.member(ix, true, env)
+			}
+		}
 		// roster predicate: m.roster.contains(func(t *Task) bool { return t.taskId == <id of the status> })
 		if sel, ok := v.Fun.(*ast.SelectorExpr); ok && (sel.Sel.Name == "contains" || sel.Sel.Name == "Contains") && len(v.Args) == 1 &&
 			(strings.HasSuffix(w.src(sel.X), "roster") || strings.HasSuffix(w.src(sel.X), "roster.tasks")) {
@@ -516,6 +568,72 @@ func (w *symWalk) boolean(e ast.Expr, env *senv) *form {
 	return w.unknownAtom(e)
 }
 
+// member: `table[x]` (with values true) or the ok of `_, ok := table[x]`, for a package-level map /
+// slice literal whose keys are mesos constants and x the state / reason of the status
+func (w *symWalk) member(ix *ast.IndexExpr, commaOk bool, env *senv) *form {
+	id, ok := unparen(ix.X).(*ast.Ident)
+	if !ok {
+		return w.unknownAtom(ix)
+	}
+	if _, local := env.get(id.Name); local {
+		return w.unknownAtom(ix)
+	}
+	init, ok := w.pkg.vars[id.Name]
+	if !ok {
+		return w.unknownAtom(ix)
+	}
+	lit, ok := unparen(init).(*ast.CompositeLit)
+	if !ok {
+		return w.unknownAtom(ix)
+	}
+	if _, isMap := lit.Type.(*ast.MapType); !isMap {
+		return w.unknownAtom(ix)
+	}
+	// the table must not be written anywhere in the package
+	for _, fds := range w.pkg.funcs {
+		for _, fd := range fds {
+			written := false
+			ast.Inspect(fd.Body, func(x ast.Node) bool {
+				switch a := x.(type) {
+				case *ast.AssignStmt:
+					for _, l := range a.Lhs {
+						if strings.HasPrefix(w.src(l), id.Name+"[") || w.src(l) == id.Name {
+							written = true
+						}
+					}
+				case *ast.CallExpr:
+					if f, ok := a.Fun.(*ast.Ident); ok && f.Name == "delete" && len(a.Args) > 0 && w.src(a.Args[0]) == id.Name {
+						written = true
+					}
+				}
+				return true
+			})
+			if written {
+				return w.unknownAtom(ix)
+			}
+		}
+	}
+	x := w.val(ix.Index, env)
+	res := fF
+	for _, el := range lit.Elts {
+		kv, ok := el.(*ast.KeyValueExpr)
+		if !ok {
+			return w.unknownAtom(ix)
+		}
+		if !commaOk {
+			v, ok := unparen(kv.Value).(*ast.Ident)
+			if !ok || (v.Name != "true" && v.Name != "false") {
+				return w.unknownAtom(ix)
+			}
+			if v.Name == "false" {
+				continue
+			}
+		}
+		res = fOr(res, w.compare(x, w.val(kv.Key, nil), &ast.BinaryExpr{X: ix.Index, Op: token.EQL, Y: kv.Key}))
+	}
+	return res
+}
+
 func (w *symWalk) bindArgs(fd *ast.FuncDecl, call *ast.CallExpr, env *senv) *senv {
 	fenv := (&senv{}).child()
 	if fd.Recv != nil && len(fd.Recv.List) == 1 && len(fd.Recv.List[0].Names) == 1 {
@@ -536,6 +654,18 @@ func (w *symWalk) bindArgs(fd *ast.FuncDecl, call *ast.CallExpr, env *senv) *sen
 }
 
 func (w *symWalk) bindDefs(a *ast.AssignStmt, env *senv) {
+	if len(a.Lhs) == 2 && len(a.Rhs) == 1 {
+		if ix, ok := unparen(a.Rhs[0]).(*ast.IndexExpr); ok {
+			// v, ok := table[x]
+			if id, ok := a.Lhs[1].(*ast.Ident); ok && id.Name != "_" {
+				env.bind(id.Name, sval{kind: svLazy, expr: &ast.CallExpr{Fun: ast.NewIdent("__commaok"), Args: []ast.Expr{ix}}, env: env.snapshot()})
+			}
+			if id, ok := a.Lhs[0].(*ast.Ident); ok && id.Name != "_" {
+				env.bind(id.Name, sval{kind: svUnknown, expr: id})
+			}
+			return
+		}
+	}
 	if len(a.Lhs) != len(a.Rhs) {
 		for _, l := range a.Lhs {
 			if id, ok := l.(*ast.Ident); ok && id.Name != "_" {
@@ -705,7 +835,9 @@ func (w *symWalk) calls(n ast.Node, pc *form, env *senv) {
 			if fd != nil {
 				fenv := (&senv{}).child()
 				w.depth++
+				w.stack = append(w.stack, fd.Name.Name)
 				w.walk(fd.Body.List, pc, fenv)
+				w.stack = w.stack[:len(w.stack)-1]
 				w.depth--
 				return false
 			}
@@ -754,9 +886,11 @@ func (w *symWalk) calls(n ast.Node, pc *form, env *senv) {
 					known = true
 				}
 			}
-			if known {
+			if known || w.inlineAll {
 				w.depth++
+				w.stack = append(w.stack, fd.Name.Name)
 				w.walk(fd.Body.List, pc, w.bindArgs(fd, c, env))
+				w.stack = w.stack[:len(w.stack)-1]
 				w.depth--
 			}
 		}
